@@ -17,8 +17,9 @@
 (*   outs    the outcomes an attempt may have; the per-attempt outcome     *)
 (*           script is chosen by the environment when the attempt ends, so *)
 (*           every script is covered;                                      *)
-(*   k       SpeculativeExecutionPolicy.Attempts(); idem; cancel (whether  *)
-(*           the environment may cancel the caller's context).             *)
+(*   k       SpeculativeExecutionPolicy.Attempts(); idem; cancel: how the  *)
+(*           environment may end the caller's context ("none", "cancel" =  *)
+(*           cancellation, "deadline" = the deadline expires, "any").      *)
 (*                                                                         *)
 (* Each execution (the main one and up to k speculative ones - only when   *)
 (* the query is idempotent) is a copy of the `do` loop.  Shared: the host  *)
@@ -53,7 +54,7 @@ VARIABLES cfg,        \* the scenario
           launched,   \* executions that have made their first host iterator call
           chan,       \* results channel (capacity 1): a result or NoRes
           ret,        \* what executeQuery is about to return / has returned
-          cancelled,  \* the caller's context was cancelled
+          cancelled,  \* the caller's context: "no" | "cancel" (cancelled) | "deadline" (expired)
           returned,   \* executeQuery has returned to the caller
           g,          \* ghost: property monitor
           hist,       \* ghost: observable history (if KeepHist)
@@ -77,7 +78,7 @@ InitWith(c) ==
   /\ ex = [e \in E |-> Ex0]
   /\ ipos = 0 /\ cnt = 0 /\ started = 0 /\ spawned = 1 /\ launched = 0
   /\ chan = NoRes /\ ret = NoRes
-  /\ cancelled = FALSE /\ returned = FALSE
+  /\ cancelled = "no" /\ returned = FALSE
   /\ g = MonInit /\ hist = <<>> /\ last = NoEv
 
 Init == \E c \in Configs : InitWith(c)
@@ -85,7 +86,11 @@ Init == \E c \in Configs : InitWith(c)
 SpecMode == SpecModeOf(cfg)
 \* the context an execution runs under: the caller's, and in speculative mode a child that
 \* executeQuery cancels when it returns (defer cancel())
-CtxDead == cancelled \/ (SpecMode /\ ret # NoRes)
+CtxDead == cancelled # "no" \/ (SpecMode /\ ret # NoRes)
+\* the error a dead context reports: the caller's (Canceled / DeadlineExceeded), or Canceled of
+\* the child context that executeQuery cancels on return - whichever happened (first)
+CtxErrSet == (IF cancelled = "cancel" THEN {"canceled"} ELSE IF cancelled = "deadline" THEN {"deadline"} ELSE {})
+             \cup (IF SpecMode /\ ret # NoRes THEN {"canceled"} ELSE {})
 
 Emit(evt) ==
   /\ last' = evt
@@ -148,7 +153,7 @@ Start(e) ==
 End(e, o) ==
   LET r == [ex[e] EXCEPT !.out = o] IN
   /\ ex[e].pc = "run"
-  /\ o \in (IF ex[e].ref THEN {"canceled"} ELSE cfg.outs \cup (IF CtxDead THEN {"canceled"} ELSE {}))
+  /\ o \in (IF ex[e].ref THEN CtxErrSet ELSE cfg.outs \cup CtxErrSet)
   /\ cnt' = cnt + 1
   /\ \/ /\ ~IsErr(o) \/ cfg.pol.kind = "none" \/ ~cfg.idem
         /\ Finish(e, r, ThisRes(r))
@@ -187,12 +192,17 @@ Decide(e, d) ==
   /\ Emit(Ev("decide", e, 0, 0, d, r.out))
   /\ UNCHANGED <<cfg, ipos, cnt, started, spawned, launched, chan, ret, cancelled, returned>>
 
-\* environment: the caller cancels its context (any time before executeQuery has returned to it,
-\* also after executeQuery has picked its result)
-Cancel ==
-  /\ cfg.cancel /\ ~cancelled /\ ~returned
-  /\ cancelled' = TRUE
-  /\ Emit(Ev("cancel", 0, 0, 0, "", ""))
+\* environment: the caller's context ends - it is cancelled, or its deadline expires - at any
+\* time (also after executeQuery has picked its result or has returned: executions may still be
+\* running then).  Attempts in flight may then return the context's error (context.Canceled /
+\* context.DeadlineExceeded).  Behaviour dumps leave out an ending nobody can observe any more.
+CancelForms == CASE cfg.cancel = "cancel" -> {"cancel"} [] cfg.cancel = "deadline" -> {"deadline"}
+                 [] cfg.cancel = "any" -> {"cancel", "deadline"} [] OTHER -> {}
+Cancel(form) ==
+  /\ form \in CancelForms /\ cancelled = "no"
+  /\ GateAtomic => (~returned \/ \E e \in E : ex[e].pc \notin {"idle", "fin"})
+  /\ cancelled' = form
+  /\ Emit(Ev("cancel", 0, 0, 0, form, ""))
   /\ UNCHANGED <<cfg, ex, ipos, cnt, started, spawned, launched, chan, ret, returned>>
 
 \* run(): `select { case results <- iter: case <-ctx.Done(): }` (silent)
@@ -210,7 +220,8 @@ Recv ==
   /\ \/ ~SpecMode /\ ex[1].pc = "done" /\ ret' = ex[1].res
         /\ ex' = [ex EXCEPT ![1].pc = "fin"] /\ chan' = chan
      \/ SpecMode /\ chan # NoRes /\ ret' = chan /\ chan' = NoRes /\ ex' = ex
-     \/ SpecMode /\ cancelled /\ ret' = Res(0, 0, "canceled") /\ chan' = chan /\ ex' = ex
+     \/ SpecMode /\ cancelled # "no" /\ chan' = chan /\ ex' = ex
+        /\ ret' = Res(0, 0, IF cancelled = "deadline" THEN "deadline" ELSE "canceled")
   /\ UNCHANGED <<cfg, ipos, cnt, started, spawned, launched, cancelled, returned, g, hist, last>>
 
 Return ==
@@ -233,7 +244,7 @@ Terminal == returned /\ \A e \in E : ex[e].pc \in {"idle", "fin"}
 Urgent ==
   \/ launched < spawned
   \/ \E e \in E : ex[e].pc \in {"pick", "done"}
-  \/ ret = NoRes /\ SpecMode /\ (chan # NoRes \/ cancelled)
+  \/ ret = NoRes /\ SpecMode /\ (chan # NoRes \/ cancelled # "no")
   \/ ret # NoRes /\ ~returned
 
 UrgentNext ==
@@ -242,9 +253,9 @@ UrgentNext ==
 
 VisibleNext ==
   \/ \E e \in E : Launch(e) \/ Pick(e) \/ Start(e) \/ Allow(e)
-  \/ \E e \in E, o \in cfg.outs \cup {"canceled"} : End(e, o)
+  \/ \E e \in E, o \in cfg.outs \cup CtxErrs : End(e, o)
   \/ \E e \in E, d \in Decisions : Decide(e, d)
-  \/ Cancel \/ Return
+  \/ (\E form \in {"cancel", "deadline"} : Cancel(form)) \/ Return
 SilentNext == Spawn \/ Recv \/ \E e \in E : Deliver(e)
 
 Next ==
@@ -278,10 +289,10 @@ DirectBoundSequential == ~SpecMode => started <= PolBmax(cfg.pol) + 1
 DirectNonIdem == ~cfg.idem => launched <= 1 /\ (NonIdemRetry \/ started <= 1)
 DirectSpeculation == launched <= spawned /\ spawned <= 1 + (IF cfg.idem THEN cfg.k ELSE 0)
 \* an execution that observed the cancellation attempts nothing more: it is finished
-DirectCancel == \A e \in E : ex[e].out = "canceled" => ex[e].pc \in {"done", "fin"}
+DirectCancel == \A e \in E : ex[e].out \in CtxErrs => ex[e].pc \in {"done", "fin"}
 \* the result handed to the caller is a finished execution's result
 DirectResult == ret # NoRes =>
-  \/ SpecMode /\ cancelled /\ ret = Res(0, 0, "canceled")
+  \/ SpecMode /\ cancelled # "no" /\ ret.att = 0 /\ ret.eord = 0 /\ ret.x \in CtxErrs
   \/ \E e \in E : ex[e].pc \in {"done", "fin"} /\ ex[e].res = ret
 
 \* witnesses (expected to be VIOLATED: the bound is reached; budget+1 is too tight)
